@@ -143,8 +143,11 @@ class Kernel(object):
         self.bypass = []         # audit events seen outside a bracket while a process runs
 
     # ---- configuration per run -----------------------------------------
-    def reset(self, root, mounts=('/',), dirsalt=0, faults=(), umask=0o022):
+    def reset(self, root, mounts=('/',), dirsalt=0, faults=(), umask=0o022, devs=None):
         self.root = root
+        # st_dev of the simulated volumes: 'distinct' (one device per mount point) or 'shared' (the volumes are bind
+        # mounts / several mounts of ONE file system: same st_dev everywhere, rename between them still gives EXDEV)
+        self.devmode = devs or ('shared' if dirsalt % 10 < 3 else 'distinct')
         self.trace = []
         self.gseq = 0
         self.mounts = sorted(set(['/'] + list(mounts)))
@@ -279,6 +282,35 @@ class Kernel(object):
             if m != '/' and (vres == m or vres.startswith(m + '/')) and len(m) > len(best):
                 best = m
         return best
+
+    def devify(self, st, vs, follow, vbase=None):
+        """stat result with the st_dev of the simulated volume the object is on"""
+        if len(self.mounts) < 2 or self.devmode == 'shared':
+            return st
+        try:
+            if isinstance(vs, int):
+                vs = self.cur.fds.get(vs)
+                follow = True
+            if isinstance(vs, bytes):
+                vs = os.fsdecode(vs)
+            if not isinstance(vs, str):
+                return st
+            if vbase is not None and not vs.startswith('/'):
+                vs = posixpath.join(vbase, vs)
+            if not vs.startswith('/'):
+                if vs.startswith('<'):
+                    return st
+                vs = posixpath.join(self.cur.cwd, vs)
+            if follow:
+                res = self.v(self._orig_realpath(self.root + vs))
+            else:
+                res = self.real_resolved_parent(vs)
+            vol = self.volume_of_resolved(res)
+            t = list(st)
+            t[2] = 0x3000 + self.mounts.index(vol)
+            return os.stat_result(t, st.__reduce__()[1][1])
+        except Exception:
+            return st
 
     def volume_for_entry(self, vs, dir_fd=None):
         """(volume that the *directory entry* lives on, resolved path,
@@ -534,6 +566,8 @@ def _simple(name, mut_cls=None, npaths=1, result=None):
                 K.fail(ev, e)
                 raise
             K.done(ev, result(res) if result else None)
+            if name in ('stat', 'lstat'):
+                res = K.devify(res, vs, name == 'stat' and kw.get('follow_symlinks', True))
             return res
     else:
         def w(src, dst, *a, **kw):
@@ -722,12 +756,13 @@ def w_listdir(path='.'):
 
 
 class VDirEntry(object):
-    __slots__ = ('_e', 'name', 'path')
+    __slots__ = ('_e', 'name', 'path', '_vfull')
 
-    def __init__(self, e, vdir, isfd):
+    def __init__(self, e, vdir, isfd, vfull=None):
         self._e = e
         self.name = e.name
         self.path = e.name if isfd else posixpath.join(vdir, e.name)
+        self._vfull = posixpath.join(vfull, e.name) if isinstance(vfull, str) and vfull.startswith('/') else None
 
     def __fspath__(self):
         return self.path
@@ -745,7 +780,10 @@ class VDirEntry(object):
         return False
 
     def stat(self, *, follow_symlinks=True):
-        return self._e.stat(follow_symlinks=follow_symlinks)
+        st = self._e.stat(follow_symlinks=follow_symlinks)
+        if self._vfull is not None and K.active:
+            st = K.devify(st, self._vfull, follow_symlinks)
+        return st
 
     def inode(self):
         return self._e.inode()
@@ -800,7 +838,10 @@ def w_scandir(path='.'):
         vdir = os.fsdecode(vdir)
     order = K.permute(vs, list(by))
     K.done(ev, len(order))
-    return VScandir([VDirEntry(by[n], vdir, isfd) for n in order])
+    vfull = vs
+    if isinstance(vfull, str) and not vfull.startswith('/') and not vfull.startswith('<'):
+        vfull = posixpath.join(K.cur.cwd, vfull)
+    return VScandir([VDirEntry(by[n], vdir, isfd, vfull) for n in order])
 
 
 def _writes(flags):
@@ -863,6 +904,8 @@ def _fdop(name):
             K.fail(ev, e)
             raise
         K.done(ev, res if isinstance(res, int) else None)
+        if name == 'fstat':
+            res = K.devify(res, fd, True)
         return res
     w.__name__ = w.__qualname__ = name
     return w
@@ -1089,7 +1132,17 @@ def w_builtin_open(file, mode='r', buffering=-1, encoding=None, errors=None,
         # reading handle: a real file object on the descriptor.  The reads
         # themselves are not separate ops (open+read of a small file is one
         # step of the simulation).
-        f = O.builtin_open(fd, mode, buffering, encoding, errors, newline, True)
+        try:
+            f = O.builtin_open(fd, mode, buffering, encoding, errors, newline, True)
+        except OSError as e:
+            # e.g. the path is a directory: open(2) succeeded, the file object refuses it.  The real open() closes the
+            # descriptor and names the PATH in the error, not a descriptor number
+            K.cur.fds.pop(fd, None)
+            try:
+                O.close(fd)
+            except OSError:
+                pass
+            raise OSError(e.errno, e.strerror, os.fspath(file)) from None
         rd = SimReader(f, fd, K.cur, file)
         K.cur.readers.append(rd)
         return rd
